@@ -10,7 +10,7 @@ for pid in sorted(registry.CHECKS):
     mod = importlib.import_module('vlib.' + pid.lower())
     if hasattr(mod, 'regenerate'):
         print('regenerating generated model for', pid, flush=True)
-        mod.regenerate()
+        mod.regenerate(None)
 targets = ['Props/%s.vo' % pid for pid in sorted(registry.CHECKS)]
 ok, log = common.coq_make(targets, timeout=3000)
 print(log[-4000:])
